@@ -10,7 +10,9 @@ from .mirparse import split_top
 from .values import (BV, Bool, UNIT, Tup, Adt, Seq, Str, Cell, Ref, Opaque, Closure, FnItem, INT_TYPES, Panic,
                      Unsupported, bv_const)
 
+ORDERING = {"Less": -1, "Equal": 0, "Greater": 1}
 STD_ENUMS = {
+    "Ordering": ["Less", "Equal", "Greater"],
     "Option": ["None", "Some"],
     "Result": ["Ok", "Err"],
     "ControlFlow": ["Continue", "Break"],
@@ -504,6 +506,8 @@ class Exec:
 
     def variant_index(self, adt):
         ty = base_type_name(adt.ty)
+        if ty == "Ordering":
+            return ORDERING[adt.variant]
         if ty in STD_ENUMS:
             return STD_ENUMS[ty].index(adt.variant)
         for variants in self.enums.get(ty, []):
@@ -809,6 +813,10 @@ class Exec:
     def do_call(self, callee, args, dest_ty, depth):
         name = normalize_callee(callee)
         key = name if name in self.summaries else re.sub(r"^<[^>]*? as ", "<* as ", name)
+        if key not in self.summaries and not name.startswith("<"):
+            tail2 = "::".join(name.split("::")[-2:])
+            if tail2 in self.summaries:
+                key = tail2
         if key in self.summaries:
             self.used_summaries.add(key)
             return self.summaries[key](self, Call(callee, name, callee_generics(callee), args, dest_ty))
